@@ -433,4 +433,89 @@ def initCS (phase : Int) (progs : List (List Instr)) : CS :=
 
 end Conc
 
+/-! ## Concurrent model of the finalizing state
+
+Shared: `r.finalizingState` (a plain field, only touched under `r.mutex`), the round number (round 0 always counts as
+finalized) and the `sync.RWMutex` `r.mutex` (write lock held / number of read locks held). A thread is the list of
+atomic instructions it still has to execute plus one register (the result of its last test). The methods, as the
+atomic-step lists they are in the code (entity.go:450-500):
+
+* `ResetFinalizingStateIfNotFinalized`: `Lock(); if r.isFinalized() { return }; r.setFinalizingPhase(NotFinalized); Unlock()`
+  = `lock · test isFinalized · store NotFinalized unless the test was true · unlock` — test and store in ONE critical section;
+* `SetFinalizing`: `lock · test (isFinalized || isFinalizing) · store Finalizing unless true · unlock`;
+* `Finalize(b)` / `SetFinalized`: `lock · store Finalized · unlock`.
+(`ResetFinalizingState`, the unconditional reset, is the one operation the property allows to un-finalize; it is not
+part of these programs.)  `resetIfNotSplitI` is NOT in the code: it is the variant that tests under a read lock,
+releases it, and then stores under the write lock — used only to show that the single critical section is needed. -/
+namespace FinConc
+
+inductive Instr where
+  | lock | unlock | rlock | runlock
+  | testFinalized                 -- reg := isFinalized()
+  | testFinalizedOrFinalizing     -- reg := isFinalized() || isFinalizing()
+  | testNotFinalizing             -- reg := !isFinalizing()
+  | storeUnless (v : Nat)         -- if !reg { finalizingState = v }
+  | store (v : Nat)
+deriving DecidableEq, Repr
+
+inductive Call where
+  | resetIfNot | setFinalizing | finalize
+deriving DecidableEq, Repr
+
+def Call.instrs : Call → List Instr
+  | .resetIfNot => [.lock, .testFinalized, .storeUnless NotFinalized, .unlock]
+  | .setFinalizing => [.lock, .testFinalizedOrFinalizing, .storeUnless Finalizing, .unlock]
+  | .finalize => [.lock, .store Finalized, .unlock]
+
+/-- NOT the code: test under the read lock, store later under the write lock -/
+def resetIfNotSplitI : List Instr :=
+  [.rlock, .testNotFinalizing, .runlock, .lock, .storeUnless NotFinalized, .unlock]
+
+structure Thread where
+  rem : List Instr
+  reg : Bool := false
+deriving Repr
+
+structure CS where
+  fin : Nat
+  number : Int
+  mutex : Bool
+  readers : Nat
+  thr : Nat → Thread
+
+def CS.isFinalized (s : CS) : Bool := s.fin == Finalized || s.number == 0
+
+def upd (f : Nat → Thread) (i : Nat) (t : Thread) : Nat → Thread := fun j => if j = i then t else f j
+
+/-- thread `i` executes its next atomic instruction (a thread that cannot take the lock does not move) -/
+def cstep (s : CS) (i : Nat) : CS :=
+  let t := s.thr i
+  match t.rem with
+  | [] => s
+  | .lock :: rest =>
+    if s.mutex || s.readers != 0 then s else { s with mutex := true, thr := upd s.thr i { t with rem := rest } }
+  | .unlock :: rest => { s with mutex := false, thr := upd s.thr i { t with rem := rest } }
+  | .rlock :: rest =>
+    if s.mutex then s else { s with readers := s.readers + 1, thr := upd s.thr i { t with rem := rest } }
+  | .runlock :: rest => { s with readers := s.readers - 1, thr := upd s.thr i { t with rem := rest } }
+  | .testFinalized :: rest => { s with thr := upd s.thr i { rem := rest, reg := s.isFinalized } }
+  | .testFinalizedOrFinalizing :: rest =>
+    { s with thr := upd s.thr i { rem := rest, reg := s.isFinalized || s.fin == Finalizing } }
+  | .testNotFinalizing :: rest => { s with thr := upd s.thr i { rem := rest, reg := !(s.fin == Finalizing) } }
+  | .storeUnless v :: rest =>
+    { s with fin := (if t.reg then s.fin else v), thr := upd s.thr i { t with rem := rest } }
+  | .store v :: rest => { s with fin := v, thr := upd s.thr i { t with rem := rest } }
+
+def crun (s : CS) (sched : List Nat) : CS := sched.foldl cstep s
+
+/-- the finalizing states seen after each step of the schedule (the initial one first) -/
+def trace (s : CS) : List Nat → List Nat
+  | [] => [s.fin]
+  | i :: is => s.fin :: trace (cstep s i) is
+
+def initCS (fin : Nat) (number : Int) (progs : List (List Instr)) : CS :=
+  { fin := fin, number := number, mutex := false, readers := 0, thr := fun i => { rem := progs.getD i [] } }
+
+end FinConc
+
 end ZChain.Round
